@@ -205,9 +205,22 @@ def _run_built(ctx: RunContext, built: dict, configs: list[dict], variables=None
 
             key = sspec["cfg"]
             if key not in reuse:
-                reuse[key] = (EnOptConfig.model_validate(cfg, context=ctx.transforms), ctx.run_id)
-            cfg, first_run = reuse[key]
-            backend.ACTIVE[first_run] = ctx
+                try:
+                    reuse[key] = (EnOptConfig.model_validate(cfg, context=ctx.transforms), ctx.run_id)
+                except Exception:  # noqa: BLE001 - an invalid configuration: let the step report it as usual
+                    reuse = None
+            if reuse is not None:
+                cfg, first_run = reuse[key]
+                backend.ACTIVE[first_run] = ctx
+        elif ctx.scn.get("validated_config_object"):
+            # the step is handed an EnOptConfig object that the caller validated (a fresh one for every step run, so
+            # that runs stay distinguishable by their configuration object) instead of a dictionary
+            from ropt.config.enopt import EnOptConfig
+
+            try:
+                cfg = EnOptConfig.model_validate(cfg, context=ctx.transforms)
+            except Exception:  # noqa: BLE001 - an invalid configuration: let the step report it as usual
+                pass
         kwargs: dict[str, Any] = {"config": cfg}
         if ctx.transforms is not None:
             kwargs["transforms"] = ctx.transforms
